@@ -551,14 +551,14 @@ def run(ctx):
                          'linerelaxation (1120 configs incl. the invalid '
                          'pair) per grid x model; non-trivial = a status was '
                          'reported for a non-zero source',
-                    time_cap=cap or (120 if q else 1500))
+                    time_cap=cap or (480 if q else 3000))
     if ctx.wants('lattice'):
         cs = lattice_cases(GRIDS[:3] if q else GRIDS[:6],
                            MODELS[1:2] if q else MODELS[:3], 1 if q else 2)
         ctx.explore('lattice', FN, cs, engine='E1',
                     rule=f'all configurations with <= {1 if q else 2} '
                          'non-default options out of 17 option domains',
-                    time_cap=cap or (60 if q else 1500))
+                    time_cap=cap or (240 if q else 3000))
     if ctx.wants('init'):
         dom = {'source': LATTICE['source'], 'efield': LATTICE['efield'],
                'return_info': [True, False],
@@ -572,7 +572,7 @@ def run(ctx):
         ctx.explore('source-x-initial-field', FN, cs, engine='E1',
                     rule='full product source kind x caller-supplied field '
                          'kind x return_info x sslsolver x verb per grid',
-                    time_cap=cap or (60 if q else 600))
+                    time_cap=cap or (240 if q else 1200))
     if ctx.wants('krylov'):
         variants = [
             {'grid': GRIDS[0], 'model': MODELS[1], 'solver': s, 'cycle': cy,
@@ -588,4 +588,4 @@ def run(ctx):
                     rule='all scripts over {CB, NOCB, PREC}* + {R0, RMAX, '
                          'RNEG} up to the length bound, per solver x '
                          'preconditioner variant',
-                    time_cap=cap or (60 if q else 900))
+                    time_cap=cap or (240 if q else 1800))
